@@ -656,3 +656,67 @@ Proof.
   - apply InvD_init_unbind; assumption.
   - unfold init_disown, maybe_release. destruct (owned _ _); autorewrite with rd; rewrite Nat.eqb_refl; reflexivity.
 Qed.
+
+(* ------------------------------------------------------------------ plain slices *)
+Lemma skipn_add {A} (l : list A) x : forall y, skipn x (skipn y l) = skipn (y + x) l.
+Proof. revert l. induction y as [|y IH]; intros; simpl; [reflexivity|]. destruct l; [destruct x; reflexivity|]. Abort.
+Lemma skipn_add {A} y : forall (l : list A) x, skipn x (skipn y l) = skipn (y + x) l.
+Proof. induction y as [|y IH]; intros l x; simpl; [reflexivity|]. destruct l; [destruct x; reflexivity|apply IH]. Qed.
+
+Lemma slice_split {A} (l : list A) lo hi : lo <= hi -> hi <= length l ->
+  l = firstn lo l ++ firstn (hi - lo) (skipn lo l) ++ skipn hi l.
+Proof.
+  intros H1 H2. rewrite <- (firstn_skipn lo l) at 1. f_equal.
+  rewrite <- (firstn_skipn (hi - lo) (skipn lo l)) at 1. f_equal.
+  rewrite skipn_add. f_equal. lia.
+Qed.
+
+Lemma InvD_disown_sub hpf k g mid : forall pre post s, InvD hpf s -> iol k s g = pre ++ mid ++ post ->
+  InvD hpf (set_iol k (io_disown_all k s g mid) g (pre ++ post)).
+Proof.
+  induction mid as [|v t IH]; intros pre post s HD Hl; simpl.
+  - apply InvD_perm; [assumption|]. rewrite Hl. reflexivity.
+  - set (s1 := io_disown k (set_iol k s g (pre ++ t ++ post)) g v).
+    assert (HD1 : InvD hpf s1).
+    { apply InvD_disown; [assumption| |]; rewrite Hl.
+      - rewrite !countb_app. simpl. rewrite Nat.eqb_refl.
+        pose proof (countb_nonneg v pre). pose proof (countb_nonneg v t). pose proof (countb_nonneg v post). lia.
+      - intros x. rewrite !countb_app. simpl. rewrite ?countb_app. unfold ind. destruct (v =? x); lia. }
+    assert (Hl1 : iol k s1 g = pre ++ t ++ post).
+    { unfold s1. rewrite iol_disown. autorewrite with rd. rewrite kind_eqb_refl, Nat.eqb_refl. reflexivity. }
+    specialize (IH pre post s1 HD1 Hl1). unfold s1 in IH. rewrite disown_set_iol, disown_all_set_iol, set_iol_set_iol in IH.
+    exact IH.
+Qed.
+
+Lemma gcheck_disown_all k g vs g' x : forall s, gcheck s g' x = true -> gcheck (io_disown_all k s g vs) g' x = true.
+Proof. induction vs as [|v t IH]; intros s H; simpl; [assumption|]. apply IH. apply gcheck_disown. assumption. Qed.
+
+Lemma InvD_io_setslice hpf k s g a b vs : InvD hpf s -> InvD hpf (fst (io_setslice all_fixed k s hpf g a b vs)).
+Proof.
+  intros HD. unfold io_setslice. destruct (forallb _ vs) eqn:E; [|assumption]. cbn [fst K].
+  set (l := iol k s g) in *. set (lo := slice_lo (length l) a). set (hi := slice_hi (length l) a b).
+  assert (Hlo : lo <= hi) by (unfold lo, hi, slice_hi; lia).
+  assert (Hhi : hi <= length l) by (unfold hi, lo, slice_hi, slice_lo; lia).
+  set (old := firstn (hi - lo) (skipn lo l)). set (pre := firstn lo l). set (post := skipn hi l).
+  assert (Hl : iol k s g = pre ++ old ++ post) by (apply slice_split; assumption).
+  set (s2 := set_iol k (io_disown_all k s g old) g (pre ++ post)).
+  assert (HD2 : InvD hpf s2) by (apply InvD_disown_sub; assumption).
+  assert (Hc2 : forallb (io_check k s2 hpf g) vs = true).
+  { rewrite forallb_forall in *. intros x Hx. specialize (E x Hx). unfold io_check in *. apply andb_prop in E.
+    destruct E as [E1 E2]. unfold s2. rewrite gcheck_set_iol, gcheck_disown_all by assumption. assumption. }
+  pose proof (InvD_own_all hpf k g vs s2 HD2 Hc2) as H3.
+  assert (Hl2 : iol k s2 g = pre ++ post).
+  { unfold s2. autorewrite with rd. rewrite kind_eqb_refl, Nat.eqb_refl. reflexivity. }
+  rewrite Hl2 in H3. unfold s2 in H3 at 1. rewrite own_all_set_iol, set_iol_set_iol in H3.
+  pose proof (InvD_perm hpf k _ g (pre ++ vs ++ post) H3) as H4. rewrite set_iol_set_iol in H4. apply H4.
+  intros x. autorewrite with rd. rewrite kind_eqb_refl, Nat.eqb_refl. simpl. rewrite !countb_app. lia.
+Qed.
+
+Lemma InvD_io_delslice hpf k s g a b : InvD hpf s -> InvD hpf (fst (io_delslice all_fixed k s g a b)).
+Proof.
+  intros HD. unfold io_delslice. cbn [all_fixed fst K].
+  set (l := iol k s g) in *. set (lo := slice_lo (length l) a). set (hi := slice_hi (length l) a b).
+  assert (Hlo : lo <= hi) by (unfold lo, hi, slice_hi; lia).
+  assert (Hhi : hi <= length l) by (unfold hi, lo, slice_hi, slice_lo; lia).
+  apply InvD_disown_sub; [assumption|]. apply slice_split; assumption.
+Qed.
